@@ -16,14 +16,15 @@ Definition code_flags : flags := {| fix_f17 := code_fixed_F17; fix_keep := code_
 (* The service registered by the harness (harness/cmd/c14/main.go: newSvc).
    REST resources, in this order: POST MsgA (v3-4), PUT MsgB (v3), GET GetE (v3),
    GET GetI (v3-4), GET GetD (v3); websocket messages MsgA, MsgB, MsgG (as MsgB, behind
-   a gate the harness controls; the gate only shapes the interleaving). *)
+   a gate the harness controls; the gate only shapes the interleaving), MsgN (acknowledge
+   only: the handler returns (nil, nil)). *)
 Definition c14_world : world :=
   {| w_regs := [ Reg KPost HStrict 10 3 4;
                  Reg KPut HLenient 11 3 3;
                  Reg KEmpty HConst 12 3 3;
                  Reg KInt HInt 13 3 4;
                  Reg KBytes HBytes 14 3 3 ];
-     w_ws := [ (HStrict, 1); (HLenient, 2); (HLenient, 3) ] |}.
+     w_ws := [ (HStrict, 1); (HLenient, 2); (HLenient, 3); (HAck, 0) ] |}.
 
 (* ---- cases -------------------------------------------------------------------- *)
 
@@ -36,6 +37,9 @@ Record sobs := SObs { so_replies : list (list reply); so_status : sstatus }.
 Inductive pstep :=
 | StSend (calls : list (nat * pmsg))
     (* concurrent Client.SendProtobuf calls of ONE client: (destination node, request) *)
+| StReuse (calls : list (nat * bool * pmsg))
+    (* Client.SendProtobuf calls one after the other that REUSE ONE reply variable:
+       (destination node, to the acknowledge-only endpoint MsgN?, request) *)
 | StCall (o : popts) (use_decoder want_ret : bool) (q : pmsg) (prio : list nat) (hold : option nat).
     (* SendProtobufParallel[WithDecoder] to all nodes; prio = the order in which the
        harness lets the nodes answer ([] = not controlled); hold = the node whose worker
@@ -43,6 +47,8 @@ Inductive pstep :=
        [done] and its close) until all other nodes have answered *)
 Inductive pstep_obs :=
 | OSend (replies : list reply)
+| OReuse (seen : list reply)
+    (* per call: the error, or what the reply variable holds after the call *)
 | OCall (res : option presult) (ret_first ret_final : option msg) (died : bool).
     (* res = None: the call never returned; died: the process died during the step
        (then ret_final could not be read) *)
@@ -258,6 +264,19 @@ Definition send_reply (bs : list nbehav) (call : nat * pmsg) : reply :=
   | PErr c t => RErr c t
   end.
 
+(* what the server answers to one call of a reuse step, and what the property demands of it *)
+Definition reuse_server (bs : list nbehav) (c : nat * bool * pmsg) : reply :=
+  match c with (i, ack, q) => if ack then zero_reply else send_reply bs (i, q) end.
+Definition reuse_spec (bs : list nbehav) (c : nat * bool * pmsg) : sreply :=
+  match c with
+  | (i, true, q) => SOk 0 zero_msg          (* the handler has no reply: the zero reply *)
+  | (i, false, q) => match node_out bs true (decode_q q) i with
+                     | POk r => SOk 6 r
+                     | PBadReply r => SOk 66 r
+                     | PErr _ t => SError (Some t)
+                     end
+  end.
+
 (* what the property demands of a single SendProtobuf to node i *)
 Definition send_spec (bs : list nbehav) (call : nat * pmsg) : sreply :=
   match node_out bs true (decode_q (snd call)) (fst call) with
@@ -279,6 +298,7 @@ Definition ores_eqb (a b : option presult) : bool :=
 Definition agree_pstep (bs : list nbehav) (st : pstep) (ob : pstep_obs) : bool :=
   match st, ob with
   | StSend calls, OSend rs => list_eqb agree_reply (map (send_reply bs) calls) rs
+  | StReuse calls, OReuse rs => list_eqb agree_reply (sendpb_seq false None (map (reuse_server bs) calls)) rs
   | StCall o use_decoder want_ret q prio hold, OCall res first final died =>
       let ids := seq 0 (List.length bs) in
       let cperm := if o_nil o || negb (o_noshuffle o) then perms ids else [ids] in
@@ -304,6 +324,12 @@ Definition check_pstep (bs : list nbehav) (st : pstep) (ob : pstep_obs) : list n
   | StSend calls, OSend rs =>
       List.concat (zip_with (fun c o => if satisfies true (send_spec bs c) o then []
                                    else if not_answered o then [4] else [1]) [1] calls rs)
+  | StReuse calls, OReuse rs =>
+      (* clause 11: after a SendProtobuf the caller's reply variable does not hold the decoding
+         of THIS call's reply (content of an earlier reply is presented as this one's) *)
+      List.concat (zip_with (fun c o => if satisfies true (reuse_spec bs c) o then []
+                                        else if not_answered o then [4]
+                                        else if is_err o then [1] else [11]) [1] calls rs)
   | StCall o use_decoder want_ret q prio hold, OCall res first final died =>
       (if died then [4] else []) ++
       match res with
